@@ -342,6 +342,8 @@ def gen(rng, tier, index=0):
             if tj <= plan['stop_at']:
                 plan['ops'].insert(i, {'t': tj, 'jump': rng.choice(
                     [2.0, 30.0, 600.0, 3600.0, -2.0, -30.0, -600.0, -3600.0, 0.3, -0.3])})
+    if rng.random() < 0.15:
+        plan['cfg']['subclass'] = True  # the block is an instance of a subclass that adds nothing
     return plan
 
 
@@ -541,7 +543,11 @@ def run_phase(run, tag, kind, vspec, cfg, stored, init_event, ops, stop_at, info
             if model.refused:
                 raise PlanError('initdef outside the accepted set in the main block')
             try:
-                blk = edzed.Input('inp', **kw)
+                icls = edzed.Input
+                if cfg.get('subclass'):
+                    icls = type('InputSub', (edzed.Input,), {'__doc__': 'adds nothing'})
+                    run.fired('reach:trivial_subclass')
+                blk = icls('inp', **kw)
             except Exception as err:    # pylint: disable=broad-except
                 ctor_exc = err
         elif kind == 'inputexp':
@@ -554,7 +560,12 @@ def run_phase(run, tag, kind, vspec, cfg, stored, init_event, ops, stop_at, info
                 raise PlanError('unusable InputExp configuration')
             dur = mk_dur(duration)
             try:
-                blk = edzed.InputExp('inp', duration=dur, expired=copy.deepcopy(expired), **kw)
+                icls = edzed.InputExp
+                if cfg.get('subclass'):
+                    # an instance of a subclass that adds nothing: validation is inherited (F27)
+                    icls = type('InputExpSub', (edzed.InputExp,), {'__doc__': 'adds nothing'})
+                    run.fired('reach:trivial_subclass')
+                blk = icls('inp', duration=dur, expired=copy.deepcopy(expired), **kw)
             except Exception as err:    # pylint: disable=broad-except
                 ctor_exc = err
         else:
